@@ -119,8 +119,15 @@ def run_async(scn, observers=()):
                 raise HarnessError(f"unknown epilogue step {step}")
         return True
 
-    r, err = aloop.run(world, main, sched=scn.get("sched", "fifo"),
-                       step_cap=scn.get("step_cap", 200000))
+    if scn.get("seam") == "L2":
+        from .l2 import Installed
+
+        with Installed(world, sync=False):
+            r, err = aloop.run(world, main, sched=scn.get("sched", "fifo"),
+                               step_cap=scn.get("step_cap", 200000))
+    else:
+        r, err = aloop.run(world, main, sched=scn.get("sched", "fifo"),
+                           step_cap=scn.get("step_cap", 200000))
     loop = world.executor
     if isinstance(err, Deadlock):
         res.error = "deadlock"
